@@ -1156,7 +1156,7 @@ def run(ctx):
 
     # 2. function-level, exhaustive small scope + random
     L = 5 if T else 4
-    L2 = 7 if T else 5
+    L2 = 6 if T else 5
     eval_fn(ctx, binpath, "parts", exhaustive_strings(PARTS_ALPHA, L) + exhaustive_strings(PARTS_ALPHA[:5], L2) + term_strings(rng, 3000 if T else 400)
             + [ritem(gen_nt_stmt(rng, 5, True))[:-1] for _ in range(2000 if T else 300)] + malformed_lines(rng, 3000 if T else 300, "nq"), "fn_parse_ntriples_parts")
     ctx.coverage["exhaustive"] = True
@@ -1276,7 +1276,13 @@ def finish(ctx):
             "RDF/XML (quick-xml + crossbeam workers) is not modelled: it takes part in the format-agreement stream only",
             "char::is_alphanumeric is modelled exactly on ASCII only (the character after a language tag is ASCII or end of term)",
             "typed literals are stored by lexical form only (the store has no datatype component); language-tagged literals as value@tag",
-        ])
+            "u32 identifiers are unbounded N in the model; the theorems assume room for the new identifiers (next_id + 4*|quads| <= 2^31)",
+        ],
+        extra={"partial_statements": [
+            "C13_formats_agree_partial: proved for N-Triples = N-Quads = Turtle = N3; RDF/XML is not modelled (differential stream only)",
+            "thread-count independence: C13_chunking proves chunk-size independence given order-preserving collection; rayon's ordered collect itself is runtime (exercised with RAYON_NUM_THREADS in 1, 4, 16)",
+            "quoted triples (tokenizers at depth > 0, split_quoted_triple_content) and the Turtle {| |} annotation syntax: modelled / not modelled, no theorem",
+        ]})
 
 
 def replay(ctx):
